@@ -30,7 +30,7 @@ LEVEL = "proof"
 
 END_NS = 10 ** 12
 COQ_FILES = ["C08/Model.v", "C08/Policies.v", "C08/PolicyThms.v", "C08/Pipeline.v", "C08/IndModel.v", "C08/IndThms.v",
-             "Base/PyLib.v", "Gen/QueuePolicyGen.v", "C08/GenTie.v", "C08/Props.v"]
+             "Base/PyLib.v", "Gen/QueuePolicyGen.v", "C08/GenTie.v", "Gen/ConcurrencyGen.v", "C08/ConcTie.v", "C08/Props.v"]
 
 
 # --------------------------------------------------------------------------- items / policies
@@ -1526,6 +1526,8 @@ TRUSTED = [
     "(C08/GenTie.v); idioms trusted: a capacity is float('inf') or an integer, items are their ids, deque.popleft()/pop() on an empty deque "
     "raise, heapq on a list touched only through heappush/heappop/[0]/len is a list sorted by the element order, _get_priority(item) is an "
     "arbitrary integer per call",
+    "the same translator regenerates FixedConcurrency / DynamicConcurrency / WeightedConcurrency from components/server/concurrency.py "
+    "(ConcurrencyGen; C08/ConcTie.v proves every operation equal to the model's cm_step); logging calls are no-ops",
     "the world model lets ANY pending pipeline event fire next; the real engine's choice (heap order) is not modelled here, the "
     "correspondence check verifies that every recorded run is one of the world's schedules",
 ]
@@ -1549,10 +1551,11 @@ class _Sharded:
 def run(ctx):
     from props import pygen
     ok, info = pygen.regenerate("QueuePolicyGen")     # components/queue_policy.py translated from $HS_REPO by py2coq
-    ctx.coverage["regenerated"] = info
+    ok2, info2 = pygen.regenerate("ConcurrencyGen")   # components/server/concurrency.py
+    ctx.coverage["regenerated"] = [info, info2]
     ctx.prove(COQ_FILES, allowed_axioms=(), trusted_base=TRUSTED)
-    if not ok and ctx.pending_obligation_violation:
-        ctx.pending_obligation_violation["translator"] = info.get("error")
+    if not (ok and ok2) and ctx.pending_obligation_violation:
+        ctx.pending_obligation_violation["translator"] = info.get("error") or info2.get("error")
     stats = []
     for fam, n in ((FAMILIES[0], ctx.n(250, 2000)), (FAMILIES[1], ctx.n(250, 1500)), (FAMILIES[2], ctx.n(200, 1500))):
         stats.append(run_family(_Sharded(ctx, 400), fam, n))
